@@ -13,8 +13,8 @@ use simple_sds::bit_vector::rank_support::RankSupport;
 use simple_sds::bit_vector::select_support::SelectSupport;
 use simple_sds::bit_vector::{BitVector, Complement, Identity};
 use simple_sds::int_vector::{IntVector, IntVectorMapper};
-use simple_sds::ops::{Access, BitVec, PredSucc, Push, Rank, Select, SelectZero, Vector, VectorIndex};
-use simple_sds::raw_vector::{AccessRaw, PushRaw, RawVector, RawVectorMapper};
+use simple_sds::ops::{Access, BitVec, Pop, PredSucc, Push, Rank, Resize, Select, SelectZero, Vector, VectorIndex};
+use simple_sds::raw_vector::{AccessRaw, PopRaw, PushRaw, RawVector, RawVectorMapper};
 use simple_sds::rl_vector::{RLBuilder, RLVector};
 use simple_sds::serialize::{self, MappedBytes, MappedOption, MappedSlice, MappedStr, MemoryMap, MemoryMapped, Serialize};
 use simple_sds::sparse_vector::{SparseBuilder, SparseVector};
@@ -38,7 +38,8 @@ pub enum Leaf {
     VecPair(Content),
     Bytes(Content),
     Str(Content),
-    /// `c.len` bits. route 0: from words via `with_len` + `set_int`; 1: `push_bit`; 2: `push_int` with mixed widths.
+    /// `c.len` bits. route 0: from words via `with_len` + `set_int`; 1: `push_bit`; 2: `push_int` with mixed widths;
+    /// 3: as 2, then extra items pushed and popped again; 4: as 0, then resized up and back down.
     Raw { c: Content, route: u8 },
     /// `c.len` items of `width` bits.
     Int { c: Content, width: usize },
@@ -144,7 +145,7 @@ fn gen_leaf(rng: &mut Rng, cfg: &GenCfg) -> Leaf {
             5 => Leaf::VecPair(gen_content(rng, m / 16)),
             6 => Leaf::Bytes(gen_content(rng, m)),
             7 => Leaf::Str(gen_content(rng, m)),
-            8 => Leaf::Raw { c: gen_content(rng, m * 4), route: rng.below(3) as u8 },
+            8 => Leaf::Raw { c: gen_content(rng, m * 4), route: rng.below(5) as u8 },
             9 => {
                 let width = gen_width(rng);
                 Leaf::Int { c: gen_content(rng, (m * 8 / width).max(1)), width }
@@ -186,6 +187,24 @@ pub fn gen_width(rng: &mut Rng) -> usize {
         0 => *rng.pick(&[1usize, 2, 7, 8, 9, 31, 32, 33, 63, 64]),
         _ => rng.range_usize(1, 64),
     }
+}
+
+/// One large structure whose size sits around a power of two (chunked loaders and writers change
+/// behaviour there). `words`: size of the body in 64-bit words.
+pub fn gen_large_payload(rng: &mut Rng, words: usize) -> Payload {
+    let c = |rng: &mut Rng, len: usize| Content { len, pat: *rng.pick(&[Pat::Random, Pat::Counter, Pat::Density(30), Pat::Density(500)]), salt: rng.next() & 0xFFFF_FFFF };
+    let leaf = match rng.below(9) {
+        0 => Leaf::VecU64(c(rng, words)),
+        1 | 2 => Leaf::VecPair(c(rng, words)),          // `words` items of two words each
+        3 => Leaf::VecUsize(c(rng, words)),
+        4 => { let extra = rng.range_usize(0, 7); Leaf::Bytes(c(rng, 8 * words + extra)) },
+        5 => { let less = rng.range_usize(0, 63); Leaf::Raw { c: c(rng, 64 * words - less), route: *rng.pick(&[0u8, 2, 3, 4]) } },
+        6 => { let width = gen_width(rng); Leaf::Int { c: c(rng, 64 * words / width), width } },
+        7 => Leaf::Rank(c(rng, (512 * words).min(40_000_000))),   // one (u64,u64) sample per 512 bits
+        _ => Leaf::Bv { c: c(rng, (64 * words).min(40_000_000)), supports: rng.below(8) as u8, route: 0 },
+    };
+    let opt = if rng.chance(1, 4) { 1 } else { 0 };
+    Payload { leaf, opt, none_at: None }
 }
 
 pub fn gen_payload(rng: &mut Rng, cfg: &GenCfg) -> Payload {
@@ -691,6 +710,26 @@ pub fn build_raw(c: &Content, route: u8) -> RawVector {
             for i in 0..c.len { v.push_bit((words[i / 64] >> (i % 64)) & 1 == 1); }
             v
         },
+        3 => {
+            // The same content, reached through a history that ends with pops (of integers that may straddle a word boundary, and of bits).
+            let mut v = build_raw(c, 2);
+            let widths = [40usize, 1, 64, 13, 63, 7];
+            let k = (c.salt % 6) as usize;
+            let mut pushed: Vec<usize> = Vec::new();
+            for j in 0..(1 + c.salt as usize % 4) { let w = widths[(k + j) % 6]; unsafe { v.push_int(c.salt.wrapping_mul(0x9E37_79B9_7F4A_7C15) | 1, w); } pushed.push(w); }
+            v.push_bit(true); v.push_bit(false);
+            let _ = v.pop_bit(); let _ = v.pop_bit();
+            while let Some(w) = pushed.pop() { let _ = unsafe { v.pop_int(w) }; }
+            v
+        },
+        4 => {
+            let mut v = build_raw(c, 0);
+            let extra = 1 + (c.salt as usize % 200);
+            v.resize(c.len + extra, true);
+            v.reserve(64);
+            v.resize(c.len, false);
+            v
+        },
         _ => {
             // Mixed-width pushes: widths cycle through a salt-dependent list.
             let widths = [1usize, 64, 13, 7, 33, 63, 2, 17];
@@ -716,6 +755,13 @@ pub fn build_int(c: &Content, width: usize) -> IntVector {
     let words = c.words();
     let mut v = IntVector::new(width).unwrap();
     for w in words { v.push(w); } // values wider than `width` are truncated by the library
+    // The same content, reached through different histories (chosen by the salt): plain pushes,
+    // pushes followed by pops, a resize up and back down.
+    match c.salt % 4 {
+        2 => { for j in 0..(1 + c.salt as usize % 3) { v.push(u64::MAX - j as u64); } for _ in 0..(1 + c.salt as usize % 3) { let _ = v.pop(); } },
+        3 => { let n = v.len(); v.resize(n + 1 + (c.salt as usize % 50), u64::MAX); v.resize(n, 0); },
+        _ => {},
+    }
     v
 }
 
